@@ -591,7 +591,8 @@ def run_check(P: Prop, tier: str, seed: int, replay: str | None = None) -> int:
             r = evaluate(P, [cand])[0]
             if match_finding(P, cand, r[1], findings) is not None:
                 return False
-            return bool(r[3])
+            # a candidate on which the harness itself trips (e.g. a shrunk case without any positive weight) is no smaller witness
+            return bool(r[3]) and not str(r[3]).startswith("harness")
 
         small = shrink_case(P, c, still_fails) if not replay else c
         if small is not c:
